@@ -3,9 +3,19 @@
 ;         F=5 fraction digits, E=6 after e/E, G=7 after exponent sign, X=8 exponent digits, D=9 dead.
 ; The exponent states reached from Z directly ("0e5", "-0E-1") are kept apart as EZ=10, GZ=11, XZ=12:
 ; the language is the same (XZ accepts), the split only lets a known finding name that class.
-(define-fun NUM_S () Int 0) (define-fun NUM_M () Int 1) (define-fun NUM_Z () Int 2) (define-fun NUM_I () Int 3)
-(define-fun NUM_P () Int 4) (define-fun NUM_F () Int 5) (define-fun NUM_E () Int 6) (define-fun NUM_G () Int 7)
-(define-fun NUM_X () Int 8) (define-fun NUM_D () Int 9) (define-fun NUM_EZ () Int 10) (define-fun NUM_GZ () Int 11) (define-fun NUM_XZ () Int 12)
+(define-fun NUM_S () Int 0)
+(define-fun NUM_M () Int 1)
+(define-fun NUM_Z () Int 2)
+(define-fun NUM_I () Int 3)
+(define-fun NUM_P () Int 4)
+(define-fun NUM_F () Int 5)
+(define-fun NUM_E () Int 6)
+(define-fun NUM_G () Int 7)
+(define-fun NUM_X () Int 8)
+(define-fun NUM_D () Int 9)
+(define-fun NUM_EZ () Int 10)
+(define-fun NUM_GZ () Int 11)
+(define-fun NUM_XZ () Int 12)
 (define-fun isdig ((c Int)) Bool (and (<= 48 c) (<= c 57)))
 (define-fun isexp ((c Int)) Bool (or (= c 101) (= c 69)))
 (define-fun issign ((c Int)) Bool (or (= c 43) (= c 45)))
@@ -36,3 +46,21 @@
       (or (= (numrun d o m) 9) (= (numrun d o m) 10) (= (numrun d o m) 11) (= (numrun d o m) 12))))
 ;@lemma run states are in range
 (define-fun numrun_range ((d (Array Int Int)) (o Int) (k Int)) Bool (and (<= 0 (numrun d o k)) (<= (numrun d o k) 12)))
+; ---- mantissa digit count: what appendDigits copies (digits before the first byte outside "-.0123456789") ----
+(define-fun ismant ((c Int)) Bool (or (isdig c) (= c 45) (= c 46)))
+(declare-fun mantstop ((Array Int Int) Int Int) Bool)
+(declare-fun mantcount ((Array Int Int) Int Int) Int)
+;@unfold
+(define-fun unfold_mantstop ((d (Array Int Int)) (o Int) (k Int)) Bool (= (mantstop d o k) (and (> k 0) (or (mantstop d o (- k 1)) (not (ismant (select d (+ o (- k 1)))))))))
+;@unfold
+(define-fun unfold_mantcount ((d (Array Int Int)) (o Int) (k Int)) Bool (= (mantcount d o k) (ite (<= k 0) 0 (+ (mantcount d o (- k 1)) (ite (and (not (mantstop d o k)) (isdig (select d (+ o (- k 1))))) 1 0)))))
+;@lemma
+(define-fun mantcount_bounds ((d (Array Int Int)) (o Int) (k Int)) Bool (and (<= 0 (mantcount d o k)) (<= (mantcount d o k) (ite (<= k 0) 0 k))))
+;@lemma once stopped, always stopped and the count is frozen
+(define-fun mantstop_mono ((d (Array Int Int)) (o Int) (k Int) (m Int)) Bool
+  (=> (and (<= 0 k) (<= k m) (mantstop d o k)) (and (mantstop d o m) (= (mantcount d o m) (mantcount d o k)))))
+; ---- exponent magnitude of the text read so far (0 unless the run is in the exponent digits) ----
+(declare-fun numexp ((Array Int Int) Int Int) Int)
+;@unfold
+(define-fun unfold_numexp ((d (Array Int Int)) (o Int) (k Int)) Bool (= (numexp d o k)
+  (ite (<= k 0) 0 (ite (or (= (numrun d o k) 8) (= (numrun d o k) 12)) (+ (* 10 (numexp d o (- k 1))) (- (select d (+ o (- k 1))) 48)) (ite (or (= (numrun d o k) 9)) (numexp d o (- k 1)) 0)))))
